@@ -18,7 +18,8 @@ RULE = ('real pass objects (lines 0/1/2/10/None, line_markers, includes, blank, 
         'record of its theorem and the Coq-side checker (pos_chk / list_chk / peep_chk / counter_chk, includes_step itself) is '
         'evaluated on it inside Coq; the number of transform calls of every run is compared with the proved bound; the main loop '
         'is run for real (CVise.reduce under the shim) on groups with growing and size-neutral passes: a new iteration only after a '
-        'strict decrease, compared with the Coq model; non-trivial = distinct (pass, text, verdict path) with an accepted candidate')
+        'strict decrease, compared with the Coq model; non-trivial = distinct (pass, text, verdict path) with an accepted candidate'
+        ' Also: net-growing passes against the 3x growth guard of run_pass; peephole enumeration must reach the end of the CURRENT file after growth accepts.')
 TRUSTED = ['abstraction functions of tools/props/c03.py (cursor -> pcur/lcur/rcur/kcur/ccur record); step hypotheses are CHECKED on observed transitions, proved only for the includes model',
            'peep.py rule tables: widths computed by CPython sre_parse (tools/gen/peeptab.py)',
            'driver model coq/Driver/*.v tied by the shim-driven correspondence (as C01/C02)']
